@@ -50,7 +50,7 @@ type poolEntry struct {
 	dump string
 }
 
-var seedExprs = []string{"$v | //*", "$w | $v", "//*/ancestor::* | $v", "$v[1] | $w[last()]", "//*", "//node()/preceding-sibling::node()", "count($v | //@*)", "$v/.. | //text()", "//*[. = $v]", "($v | $w)[position() mod 2 = 1]", "//*/namespace::* | $w", "$w/descendant-or-self::node() | $v"}
+var seedExprs = []string{"//*/@*", "/*/@*", "/*/*/@*", "//*[1]/@*", "//*/@* | $v", "$v | //*", "$w | $v", "//*/ancestor::* | $v", "$v[1] | $w[last()]", "//*", "//node()/preceding-sibling::node()", "count($v | //@*)", "$v/.. | //text()", "//*[. = $v]", "($v | $w)[position() mod 2 = 1]", "//*/namespace::* | $w", "$w/descendant-or-self::node() | $v"}
 // every builtin with two different arguments, so that hidden per-function
 // state (caches, scratch buffers) is reached by concurrent, differing calls
 var builtinGroups = [][]string{
